@@ -3,6 +3,7 @@ import os, sys
 sys.path.insert(0, os.path.dirname(os.path.dirname(os.path.abspath(__file__))))
 import samplers_streams as ss
 from props import COMMON_TB
+import _set_common as _sc
 
 WANT = ("uniform", "bounded", "zo", "hwt")
 
@@ -16,7 +17,7 @@ def search(ctx, res, problems):
 
 
 PROP = {
-    "streams": streams, "search": search,
+    "streams": streams, "translators": _sc.translators_set, "search": search,
     "rule": "enumerating tape on the real samplers: ALL 2^16 words (uniform, both moduli; bounded for 16+ admissible (B,A) pairs), all 256 bytes x all 256 rho, all reduced index tuples for every (n<=6,h) (n<=8 in the thorough tier; quick: n=7 h>=2, n=8 h>=4 exhaustive, the rest 400 random tuples) with rejection-zone words interleaved, boundary words on 32/64 bit; LARGE PARAMETERS: fixed weight at degree 512/4096/32768/65536/2^17 (2^20 thorough) on probe tapes (at ~100 steps k per line - first, last, 2^j-2..2^j+1, random, longest/shortest incomplete top block - one boundary word of that step: M_k-1, M_k, M_k+1, 2^64-1, 2^64-2^j(-1), middle/random word of the rejection zone, M_k-(k+1); each followed by a recorder word that stores the step number in a fresh reservoir slot) and random tapes with rejection-zone words, WEIGHT x DEGREE: at every degree class 64..2^17 (2^20 thorough; 128/256/512 on all three limbs) the extreme weights h = n and n-1 (at 64..512 and, thorough, everywhere: 1, 2, 3, n/2-1..n/2+1, n-2 and the weights 2^j-1, 2^j, 2^j+1 around 128, 256, 8192 (8h = 2^16 bytes), 32768, 65536), h = 0 and h > n excluded (assert / no terminating run); uniform with every row of the 32/64-bit tables as a modulus and at the largest degrees, bounded next to 2^61/2^29 at degree 16384/32768 and for every B = 2^j, 2^j+-1 below the moduli plus bounds at/beyond the limb width (2^w-1..2^w+4, 2^32.., 2^63.., 2^64-1: must throw), ternary at the largest degree of every limb incl. rho = 0 and 255; a call that does not return (sanitizer report, assert) is reported with its input (op, w, n, nm, via, parameters, scripted tape); every line: model equality + spec on the implementation's output (support exactly A*[-(B-1),B-1], ternary law of each byte, weight exactly h with identical positions, positions = reservoir run with exact rejection over the served words, number of requests = what that run needs; a failing fixed-weight line is explained in the SPECFAIL line: which word was accepted/rejected against the rule at which step); CROSS-CHECK (python, labelled as such): the statements of the counting theorems (every residue/value reachable, max count <= 2 min count, zo counts, every h-subset exactly (n-h)! times) are evaluated on the real code's outputs over the full enumerations; mask of all 1293 rows; distinct = distinct op lines",
     "trusted_base": COMMON_TB + [
         "floor(log2((double)p)) modelled by Nat.log2 (validated on all 1293 rows on every run, not proved)",
